@@ -48,6 +48,33 @@ def generate(R, tier):
         sg["wsize"] = max(1, min(1000, (wm[0] if wm else R.choice([1, 2, 4])) + R.choice([0, 0, 0, 1])))
         G.legal_quirks(sg)
         yield {"stream": "match-mss*N" if sg["wtype"] == 3 else "match-mtu*N", "pkt": p, "sig": sg, "md": 35}
+    # through fingerprint_tcp itself (C02's case format): divisors below 100 (MSS-12 for MSS 100..111 with a timestamp, a small peer MSS
+    # on a SYN+ACK) still give a multiplier, and the mss*N record must be found
+    for _ in range(n // 40):
+        ty = R.choice([2, 0x12])
+        spec, p, ty = G.rand_wire_pkt(R, flags=ty)
+        spec["mf"], spec["frag"] = False, 0
+        k = R.choice([1, 2, 3, 4, 5, 7])
+        if ty == 0x12 and R.random() < 0.6:
+            syn_mss = R.choice([13, 24, 64, 99, 100, 111, 112])
+            d = R.choice([syn_mss, syn_mss - 12])
+        else:
+            syn_mss = 0
+            d = None
+        p["syn_mss"] = syn_mss if ty == 0x12 else 0
+        if d is None or d <= 0:
+            d = p["mss"] - 12 if (p["ts1"] and 100 <= p["mss"] <= 140) else p["mss"]
+        p["win"] = spec["win"] = max(0, min(65535, d * k))
+        sg = G.matching_sig(R, p, 35)
+        wm = G.model_win_multi(p)
+        if wm and 1 <= wm[0] <= 1000:
+            sg["wtype"], sg["wsize"] = 3 + wm[1], wm[0]
+        G.legal_quirks(sg)
+        sg["dist"] = 0
+        sec = "request" if ty == 2 else "response"
+        lines = ["[tcp:%s]" % sec, "label = s:unix:X:y", "sig = " + G.sig_text(sg)]
+        yield {"stream": "api-small-divisor", "api": True, "md": 35, "syn_mss": syn_mss, "spec": spec, "lines": lines, "pkt": p,
+               "secs": {sec: [{"line": 3, "generic": False, "userapp": False, "sig": sg}]}}
     # through the packet path: the signature is built by from_packet() from real bytes, the peer MSS is passed as fingerprint_tcp does
     for _ in range(n // 8):
         ty = R.choice([2, 0x12, 0x12, 0x12])
@@ -67,6 +94,18 @@ def generate(R, tier):
         yield {"stream": "wire-syn" if ty == 2 else "wire-synack", "pkt": p, "spec": spec, "syn_mss": syn_mss}
 
 
+def model_cases(cases, impl_res, run_model):
+    from harness.props import c02
+    out = [None] * len(cases)
+    api = [i for i, c in enumerate(cases) if c.get("api")]
+    for i, r in zip(api, c02.model_cases([cases[i] for i in api], [impl_res[i] for i in api], run_model)):
+        out[i] = r
+    rest = [i for i, c in enumerate(cases) if not c.get("api")]
+    for i, r in zip(rest, run_model([model_line(cases[i]) for i in rest])):
+        out[i] = r
+    return out
+
+
 def model_line(c):
     if "sig" in c:
         return "tcp_match %d %s %s" % (c["md"], G.enc_sig(c["sig"]), G.enc_pkt(c["pkt"]))
@@ -78,8 +117,13 @@ def impl_init():
     from pyp0f.net.quirks import Quirk
     from pyp0f.net.signatures import TCPPacketSignature
 
+    from harness.props import c02
+    api_impl = c02.impl_init()
+
     def impl(c):
         p = c["pkt"]
+        if c.get("api"):
+            return api_impl(c)
         if "spec" in c:
             from pyp0f.net.packet import parse_packet
             from harness import implutil as U
@@ -106,6 +150,9 @@ def impl_init():
 
 
 def outcome(c, ir, mr):
+    if c.get("api"):
+        from harness.props import c02
+        return "api:" + c02.outcome(c, ir, mr)
     if "sig" in c:
         return "sig:" + (str(mr[0]) if isinstance(mr, list) else "model-error")
     if isinstance(mr, list):
@@ -114,6 +161,8 @@ def outcome(c, ir, mr):
 
 
 def nontrivial(c, ir, mr):
+    if c.get("api"):
+        return isinstance(mr, dict) and "ok" in mr and mr["ok"][0] is not None
     if "sig" in c:
         return isinstance(mr, list) and mr[0] is not None
     return isinstance(mr, list) and mr[0] != -1
@@ -122,6 +171,12 @@ def nontrivial(c, ir, mr):
 def judge(c, ir, mr):
     if ir == mr:
         return None
+    if c.get("api"):
+        from harness.props import c02
+        v = c02.judge(c, ir, mr)
+        if v:
+            v["kind"] = "fingerprint_tcp does not find the mss*N / mtu*N record although the window is that multiple (or finds one although it is not)"
+        return v
     if "sig" in c:
         return {"kind": "an mss*N / mtu*N signature matches although the window is not that multiple (or fails to match although it is)",
                 "why": "sig %r: impl %s, verified model %s" % (G.sig_text(c["sig"]), ir, mr), "judged_by": "C17_no_match / C01_match_iff"}
